@@ -136,6 +136,7 @@ func c07CtxDerive(h *harnessDb, c boltz.MutateContext, path string, inTx bool, f
 // c07CtxRunTx: the shared harnessDb.runTx with the registrations of the transaction's context program
 func c07CtxRunTx(h *harnessDb, t *hTx) string {
 	regs, open, _ := c07CtxParse(t)
+	pn, _ := c07PnParse(t) // store_c07_panic.go
 	h.mu.Lock()
 	h.vetoes = map[string]bool{}
 	for _, v := range t.Vetoes {
@@ -173,6 +174,8 @@ func c07CtxRunTx(h *harnessDb, t *hTx) string {
 				c.AddPreCommitAction(succeeding)
 			case 'c':
 				c.AddCommitAction(func() { commitRuns.Add(1) })
+			case 'p':
+				c.AddPreCommitAction(c07PnPanickingAction)
 			}
 		}
 	}
@@ -218,7 +221,8 @@ func c07CtxRunTx(h *harnessDb, t *hTx) string {
 				}
 			}
 			if i < n {
-				e := h.execOp(opCtx, &t.Ops[i])
+				// a panic is recorded as the operation's result ("panic") and re-raised (store_c07_panic.go)
+				e := c07PnExecOp(h, opCtx, t, i, &pn, &results)
 				results = append(results, classify(e))
 				if e != nil {
 					return e
@@ -227,7 +231,8 @@ func c07CtxRunTx(h *harnessDb, t *hTx) string {
 		}
 		return nil
 	}
-	err := run(opened, body)
+	// the call is made the way a caller that survives a panic makes it: the recover is OUTSIDE the library
+	err, panicked := c07PnCall(func() error { return run(opened, body) })
 	var sb strings.Builder
 	sb.WriteString("TX R")
 	for _, r := range results {
@@ -236,7 +241,10 @@ func c07CtxRunTx(h *harnessDb, t *hTx) string {
 	if err == nil {
 		sb.WriteString(" COMMIT")
 	} else {
-		sb.WriteString(" ROLLBACK")
+		sb.WriteString(" ROLLBACK") // the caller did not receive nil
+		if panicked {
+			sb.WriteString(" PANICKED")
+		}
 		if hasCommitReg {
 			// handleCommit starts its goroutine from bbolt's commit hook, i.e. before Update / Batch returns
 			for i := 0; i < 4; i++ {
